@@ -11,12 +11,13 @@
 (***************************************************************************)
 EXTENDS Handshake, Json
 
-CONSTANTS Family,     \* "mj_basic" "mj_restricted" "mj_qerr" "ml" "sj_shape" "sj_trust" "inv" "inv_same" "inv3" "e2e", or
+CONSTANTS Family,     \* "mj_basic" "mj_restricted" "mj_qerr" "ml" "sj_shape" "sj_trust" "inv" "inv_same" "inv3" "sj_keys" "inv_keys" "e2e", or
                       \* "all": every product family and the end-to-end behaviours in one run (quick tier)
           Width       \* "quick" | "thorough": room versions per family, allow-list alphabet of mj_restricted
 
 VersionsQuick      == {"1", "10"}
 VersionsQuick1     == {"10"}
+KVersionsQuick     == {"1", "2", "3", "4", "5", "10"}   \* key-validity families: the lenient versions 1-4 included
 VersionsThorough   == {"1", "2", "3", "6", "7", "8", "9", "10", "11", "12"}
 RVersionsQuick     == {"10", "12"}
 RVersionsThorough  == {"8", "9", "10", "11", "12"}
@@ -27,13 +28,18 @@ Vers(f) ==
     THEN (IF f \in {"mj_restricted", "mj_qerr"} THEN RVersionsThorough ELSE VersionsThorough)
     ELSE CASE f \in {"mj_restricted", "mj_qerr"} -> RVersionsQuick
            [] f \in {"sj_trust", "inv"} -> VersionsQuick1
+           [] f \in {"sj_keys", "inv_keys"} -> KVersionsQuick
            [] OTHER -> VersionsQuick
 
 Fam(s, f) == [s EXCEPT !.fam = f]
 
 Mem5 == {"none", "leave", "invite", "join", "ban"}
 TB   == {"ok", "err", "nilev", "nilstate", "wrongtype", "nocreate"}
-Sig6 == {"valid", "none", "wrongkey", "other", "tampered", "expired"}
+\* "expired": the signing key's valid_until_ts lies before the event's origin_server_ts (key not marked expired);
+\* "revoked": its expired_ts lies before it.  Neither is a valid signature, in any room version: the handlers
+\* countersign, so they apply the strict validity rule everywhere (not the room version's lenient one of v1-v4).
+Sig6 == {"valid", "none", "wrongkey", "other", "tampered", "expired", "revoked"}
+KeyClasses == {"valid", "expired", "revoked"}
 Via4 == {"none", "local", "remote", "invalid"}
 
 RoomClasses == {"nonres", "info_err", "nouser", "empty", "listedB", "listed", "listed2", "othertype", "badid"}
@@ -96,6 +102,22 @@ InitSJTrust ==
         /\ net = [k |-> "sjreq", origin |-> o, room |-> "main", eid |-> "match", ev |-> Ev("member", m, ss, "sender", "main", via, sig)]
         /\ phase = "sjreq"
 
+\* ---- send_join: validity of the signing key at the event's time, in every room version (incl. the lenient ones) ----
+InitSJKeys ==
+    \E v \in Vers("sj_keys"), sig \in KeyClasses, o \in {"J", "X"}, mem \in {"none", "join"}, via \in {"none", "local"} :
+        /\ sc = [Fam(Base(v), "sj_keys") EXCEPT !.mem = mem]
+        /\ net = [k |-> "sjreq", origin |-> o, room |-> "main", eid |-> "match",
+                  ev |-> Ev("member", "join", o, "sender", "main", IF RestrictedSupported(v) THEN via ELSE "none", sig)]
+        /\ phase = "sjreq"
+
+\* ---- invite: the same for the inviter's server ----
+InitInvKeys ==
+    \E v \in Vers("inv_keys"), sig \in KeyClasses, ss \in {"J", "R"}, kn \in BOOLEAN, st \in {"none", "given"} :
+    \E mem \in (IF kn THEN {"none", "leave"} ELSE {"none"}) :
+        /\ sc = [Fam(Base(v), "inv_keys") EXCEPT !.known = kn, !.mem = mem, !.stripped = st]
+        /\ net = [k |-> "invreq", room |-> "main", ev |-> Ev("member", "invite", ss, "invitee", "main", "none", sig)]
+        /\ phase = "invreq"
+
 \* ---- invite --------
 \*  ss: the inviter's server - "J" a remote server, "R" the invited user's own server (the event must still carry
 \*  a valid signature of that server: the local name proves nothing about a request that came over federation)
@@ -135,6 +157,8 @@ GInit ==
           \/ Is("inv") /\ InitInv
           \/ Is("inv_same") /\ InitInvSame
           \/ Is("inv3") /\ InitInv3
+          \/ Is("sj_keys") /\ InitSJKeys
+          \/ Is("inv_keys") /\ InitInvKeys
 
 GSpec == GInit /\ [][Next]_vars
 
